@@ -84,6 +84,13 @@ func (vc *VC) evalModClauses(clauses []Clause, env *Env) []modTarget {
 				env.fail("bad modifies target %s", m.Text)
 			}
 			p := env.eval(e.X)
+			if _, isI := p.T.Underlying().(*types.Interface); isI {
+				// *x for an interface value: the whole object its data pointer refers to
+				for _, s := range allHeapSorts {
+					out = append(out, modTarget{kind: "object", heap: s.heap(), sort: s, ref: p.C[1], what: m.Text})
+				}
+				continue
+			}
 			pt, ok := p.T.Underlying().(*types.Pointer)
 			if !ok {
 				env.fail("modifies *%s: not a pointer", exprString(e.X))
@@ -121,7 +128,7 @@ func (vc *VC) evalModClauses(clauses []Clause, env *Env) []modTarget {
 				}
 				seen[s] = true
 				out = append(out, modTarget{kind: "range", heap: s.heap(), sort: s, ref: base,
-					lo: app("bvadd", off, scale(lo, es)), hi: app("bvadd", off, scale(hi, es)), what: m.Text})
+					lo: app("bvadd", off, vc.scaleReg(lo, es)), hi: app("bvadd", off, vc.scaleReg(hi, es)), what: m.Text})
 			}
 		case IndexE:
 			a, t, ok := env.evalAddr(e)
@@ -186,7 +193,10 @@ func (vc *VC) evalModClauses(clauses []Clause, env *Env) []modTarget {
 				if !sh.ok {
 					env.fail("modifies %s: unsupported map", m.Text)
 				}
-				out = append(out, modTarget{kind: "ghost", heap: sh.dom, ref: mv.C[0], what: m.Text}, modTarget{kind: "ghost", heap: sh.val, ref: mv.C[0], what: m.Text})
+				out = append(out, modTarget{kind: "ghost", heap: sh.dom, ref: mv.C[0], what: m.Text})
+				for _, vk := range sh.vals {
+					out = append(out, modTarget{kind: "ghost", heap: vk, ref: mv.C[0], what: m.Text})
+				}
 			case "stream": // shorthand: Spos and Sfail of the stream
 				r := env.eval(e).term()
 				out = append(out, modTarget{kind: "ghost", heap: "Spos", ref: r, what: m.Text}, modTarget{kind: "ghost", heap: "Sfail", ref: r, what: m.Text})
@@ -319,7 +329,15 @@ func (vc *VC) applyContract(f *Frame, n *Node, in ssa.Instruction, fn *ssa.Funct
 		vc.oblige("call-requires", fmt.Sprintf("precondition %d of %s: %s%s", i, callee, r.Text, f.wherei(in)), n.Reach, env.evalGoal(r.E), append([]string{"@requires"}, r.Tags...)...)
 	}
 	if fc.Panics != nil {
-		vc.oblige("call-panics", fmt.Sprintf("%s panics when %s%s", callee, fc.Panics.Text, f.wherei(in)), n.Reach, not(env.withPol(-1).evalBool(fc.Panics.E)), "@nopanic")
+		p := env.withPol(-1).evalBool(fc.Panics.E)
+		if f.depth == 0 && f.panicsC != "" {
+			// the caller declares its own panic condition: the callee may panic only under it
+			// (and execution continues only if it did not)
+			vc.oblige("call-panics", fmt.Sprintf("%s panics when %s, outside the caller's declared 'panics when' condition%s", callee, fc.Panics.Text, f.wherei(in)), n.Reach, implies(p, f.panicsC), "@panics")
+			vc.assume(implies(n.Reach, not(p)))
+		} else {
+			vc.oblige("call-panics", fmt.Sprintf("%s panics when %s%s", callee, fc.Panics.Text, f.wherei(in)), n.Reach, not(p), "@nopanic")
+		}
 	}
 	vc.separation(f, n, in, fn, fc, args)
 	st := n.St
